@@ -59,6 +59,7 @@ if hasattr(sys, 'set_int_max_str_digits'):
     sys.set_int_max_str_digits(0)      # exact model results can have thousands of digits
 
 ID = 'C16'
+PYOVERRIDE_METHODS = ['Curve.derivative', 'Surface.derivative']   # Curve/Surface overrides re-translated and proved equal to the hand model each run
 PYBASIS_METHODS = ['integrate']   # basis.py methods re-translated and proved equal to the hand model each run
 RTOL = 1e-9
 ATOL = 1e-11
